@@ -141,7 +141,7 @@ func evalTE(c *mon.Ctx, g *te.Curve, op te.Op, key string, pts []tp, reps []te.R
 		case "equal":
 			want = C.Eq(pts[0].p, pts[1].p)
 		}
-		c.Check(op.Name, key+"/predicate-mismatch/"+fmt.Sprint(want), out.B == want, func() string {
+		c.Check(op.Name, key+"/predicate-mismatch/"+fmt.Sprint(want)+"/"+cls, out.B == want, func() string {
 			return fmt.Sprintf("%s = %v, oracle says %v", desc(), out.B, want)
 		})
 		return
